@@ -21,6 +21,7 @@ def run(ctx: Ctx):
     SC.mode_table(ctx, ["error_rate", "prefix_error_rates"], "S2")
     SC.equal_cost_shortcut(ctx, "S3")
     SC.batch_independence(ctx, "S5")
+    SC.no_eos_mask_uses_its_own_extent(ctx, "S5")
     SC.empty_reference_convention(ctx, "S2")
     # ---- S4 minimum error rate loss ---------------------------------------------------------------------
     f = pkg.func("_string::minimum_error_rate_loss")
